@@ -548,7 +548,7 @@ Proof.
   unfold do_commit in H1. cbn [andb] in H1. cbv iota in H1. unfold rearm in H1.
   rewrite commit_interval in H1.
   apply Z.ltb_lt in Hi. rewrite Hi in H1. apply Z.ltb_lt in Hi. inversion H1; subst. clear H1. cbn.
-  split; [reflexivity|]. split; [left; reflexivity|]. split; [|reflexivity].
+  split; [reflexivity|]. split; [apply in_or_app; right; left; reflexivity|]. split; [|reflexivity].
   apply pt_insert_in. left. f_equal. lia.
 Qed.
 
@@ -865,7 +865,53 @@ Proof.
   rewrite E in F1. cbn [fst] in F1. split; [exact F1|].
   exists (stat_was_called p), att. unfold do_commit in E. cbn [andb] in E. cbv iota in E.
   destruct (rearm (refresh_commit (x_g s1) p) (x_active s1) (x_last s1) (x_clock s1)) as [[[a b] c] d].
-  inversion E; subst. cbn [app]. apply in_or_app. right. left. reflexivity.
+  inversion E; subst. apply in_or_app. right. cbn [app]. apply in_or_app. right. left. reflexivity.
+Qed.
+
+(* ------------------------------------------------------------------ C17: every scan is bracketed by setgrent ... endgrent *)
+Lemma stream_after_app b e1 e2 : stream_after b (e1 ++ e2) = stream_after (stream_after b e1) e2.
+Proof. unfold stream_after. apply fold_left_app. Qed.
+
+Lemma step_stream s l s' e : gt_step VRepo s l = Some (s', e) ->
+  stream_after (stream_open s) e = stream_open s'.
+Proof.
+  intros H. unfold stream_open. destruct l; cbn [gt_step] in H.
+  - inversion H; subst. reflexivity.
+  - inversion H; subst. reflexivity.
+  - inversion H as [H1]. destruct (do_sighup_fields s) as (_ & F2 & _).
+    rewrite H1 in F2. cbn [fst] in F2. rewrite F2.
+    unfold do_sighup in H1. destruct (0 <? x_tid s); [destruct (t_cancel (x_active s) (x_tid s))|];
+      inversion H1; subst; reflexivity.
+  - destruct (x_phase s); try discriminate. destruct (x_batch s); try discriminate.
+    destruct (pt_due (x_clock s) (x_active s)) as [[|? ?] ?]; [discriminate|]. inversion H; subst. reflexivity.
+  - destruct (x_phase s); try discriminate. destruct (x_batch s); try discriminate. inversion H; subst. reflexivity.
+  - destruct (x_phase s); try discriminate. inversion H; subst. cbn.
+    destruct (snd (begin_decide snap (w_mtime (x_w s)))); reflexivity.
+  - destruct (x_phase s) as [| |tm p att w]; try discriminate. inversion H as [H1]. clear H.
+    destruct (do_commit_fields VRepo s tm p att w (stat_was_called p)) as (F1 & _).
+    rewrite H1 in F1. cbn [fst] in F1. rewrite F1.
+    unfold do_commit in H1. cbn [andb] in H1. cbv iota in H1. unfold rearm in H1.
+    destruct (0 <? g_interval (refresh_commit (x_g s) p)); destruct att; inversion H1; subst; reflexivity.
+  - inversion H; subst. reflexivity.
+Qed.
+
+(* along every run the stream is open exactly between a refresh's scan (when it makes one) and its second critical
+   section: every setgrent() is followed by its endgrent() before the callback returns, so the NEXT scan opens the
+   group database afresh — the file that is there then, also when the old one was replaced by rename() *)
+Theorem scan_bracketed interval dostat w0 tr s e :
+  gt_exec VRepo (gt_init interval dostat w0) tr = Some (s, e) ->
+  stream_after false e = stream_open s /\ (x_phase s = PIdle -> stream_after false e = false).
+Proof.
+  assert (G : forall tr s0 s1 e1, gt_exec VRepo s0 tr = Some (s1, e1) ->
+              stream_after (stream_open s0) e1 = stream_open s1).
+  { induction tr0 as [|l r IH]; intros s0 s1 e1 H; cbn [gt_exec] in H.
+    - inversion H; subst. reflexivity.
+    - destruct (gt_step VRepo s0 l) as [[s2 e2]|] eqn:E1; [|discriminate].
+      destruct (gt_exec VRepo s2 r) as [[s3 e3]|] eqn:E2; [|discriminate]. inversion H; subst.
+      rewrite stream_after_app, (step_stream _ _ _ _ E1). apply IH. exact E2. }
+  intros H. pose proof (G _ _ _ _ H) as H1.
+  assert (H0 : stream_open (gt_init interval dostat w0) = false) by reflexivity.
+  rewrite H0 in H1. split; [exact H1|]. intros Hp. rewrite H1. unfold stream_open. rewrite Hp. reflexivity.
 Qed.
 
 (* ------------------------------------------------------------------ witnesses: what the theorems exclude *)
